@@ -626,6 +626,10 @@ func (ab *rulesPair) adaptGroups(lb []string) {
 			} else {
 				// Name may have been changed before, to prevent name clashes.
 				lb[i] = gb.Name
+				// Group will be transferred with this name.
+				// Remember name, so group won't be linked to some
+				// other group on device later and transfer be cancelled.
+				gb.nameOnDevice = gb.Name
 			}
 		}
 	}
